@@ -29,10 +29,18 @@ func lookupNode[T any](urlTree *URLTree[T], url string) lookupNodeResult[T] {
 	currentNode := urlTree.Root
 	var params map[string]string
 	var foundWildcardNode *Node[T]
+	// foundWildcardPath is the declared pattern of foundWildcardNode
+	foundWildcardPath := ""
 	urlPath := ""
 	for _, urlPart := range splitURL {
 		if currentNode.WildcardChild != nil {
 			foundWildcardNode = currentNode.WildcardChild
+			foundWildcardPath = wildcardPath(urlPath, foundWildcardNode)
+			if urlPart.Value == wildcard {
+				// Looking up a declared wildcard pattern: it is this node's wildcard
+				// child, never a value of a sibling path parameter.
+				return buildLookupNodeResult(true, foundWildcardNode, params, foundWildcardPath)
+			}
 		}
 		child, found := currentNode.ConstantChildren[urlPart.Value]
 		if found && child.IsPartOfHost == urlPart.IsPartOfHost {
@@ -74,12 +82,11 @@ func lookupNode[T any](urlTree *URLTree[T], url string) lookupNodeResult[T] {
 
 		if foundWildcardNode != nil {
 			// Didn't find exact value, but found a matching wildcard
-			urlPath = urlPath + getDelimiter(urlPart) + wildcard
 			return buildLookupNodeResult(
 				true,
 				foundWildcardNode,
 				params,
-				urlPath,
+				foundWildcardPath,
 			)
 		}
 
@@ -93,15 +100,21 @@ func lookupNode[T any](urlTree *URLTree[T], url string) lookupNodeResult[T] {
 	// Exact value not found, check if node has wildcard child
 	if currentNode.WildcardChild != nil {
 		return buildLookupNodeResult(
-			true, currentNode.WildcardChild, params, urlPath)
+			true, currentNode.WildcardChild, params, wildcardPath(urlPath, currentNode.WildcardChild))
 	}
 	// Check if a matching wildcard was found in a parent node
 	if foundWildcardNode != nil {
-		return buildLookupNodeResult(true, foundWildcardNode, params, urlPath)
+		return buildLookupNodeResult(true, foundWildcardNode, params, foundWildcardPath)
 	}
 
 	// No match found, return the node that was found with noMatch
 	return buildLookupNodeResult(false, currentNode, params, urlPath)
+}
+
+// wildcardPath returns the declared pattern of a wildcard node hanging off the
+// node reached through parentPath, e.g. `host.com/*`.
+func wildcardPath[T any](parentPath string, wildcardNode *Node[T]) string {
+	return parentPath + getDelimiter(urlPart{IsPartOfHost: wildcardNode.IsPartOfHost}) + wildcard
 }
 
 func getDelimiter(urlPart urlPart) string {
